@@ -188,6 +188,8 @@ class EmuSession:
             sig = sig[:5] + bytes([sig[5] ^ 0x40]) + sig[6:]
         if k == "truncate":
             sig = sig[:-1]
+        if k == "strip-zero":              # a driver that hands the RSA result back as a minimal-length integer
+            sig = sig.lstrip(b"\0")
         entry["result"] = sig
         return sig
 
